@@ -453,6 +453,33 @@ def run_sequence(rec, pool, pr, rnd, nops, tmp, fresh_rate):
                 rec.violation('history-dependent-evaluation', f'step {step}: {e!r} on {txn.get("description")!r}: {got} here, {want} in a pristine process',
                               dict(case_base, txn=O.jtxn(txn), expr=e))
             rec.interesting(['e', e, core.digest(O.jtxn(txn))])
+            if rnd.random() < .3:
+                # the caller keeps ONE transaction dict, evaluates, edits source / location / custom fields in place and evaluates again:
+                # the second answer is that of the edited transaction (as a pristine process gives it), not of what the dict held before
+                live = copy.deepcopy(txn)
+                e2 = rnd.choice(['source == "Chase"', 'source', 'txn.location == "NY"', 'field.memo == "edited"', 'exists(field.extra)', 'txn.source != source'])
+                try:
+                    ep.evaluate_transaction(e2, live, dict(variables), O.copy_rows(rows))
+                except Exception:
+                    pass
+                which = rnd.randrange(3)
+                if which == 0:
+                    live['source'] = 'Chase'
+                elif which == 1:
+                    live['location'] = 'NY'
+                else:
+                    live['field'] = {'memo': 'edited', 'code': 'c', 'extra': 'x'}
+                try:
+                    got2 = {'v': repr(lang.norm(ep.evaluate_transaction(e2, live, dict(variables), O.copy_rows(rows))))}
+                except ep.ExpressionError:
+                    got2 = {'err': 'ExpressionError'}
+                except Exception as ex:
+                    got2 = {'exception': type(ex).__name__}
+                want2 = pr.ask({'op': 'eval', 'expr': e2, 'txn': O.jtxn(live), 'vars': variables, 'rows': rows_to_json(rows)})
+                rec.count('edited_in_place_evaluations')
+                if got2 != want2 and 'oracle_error' not in want2:
+                    rec.violation('evaluation-remembers-the-transaction-it-saw-before', f'{e2!r} after editing the same dict in place: {got2}; pristine process on the edited '
+                                  f'transaction: {want2}', dict(case_base, txn=O.jtxn(live), expr=e2))
         elif op == 'engine' and f['kind'] == 'rules':
             t_live = copy.deepcopy(txn)
             snap = typed_snapshot(t_live)
